@@ -531,7 +531,7 @@ func runC19(e *Engine, r *Report, tier string) {
 			if len(a) != 2 {
 				return
 			}
-			pre := e.Slice(a[0], SliceOpts{MaxDepth: 8, ThroughCalls: true, ConstLeafOK: true}, func(x ssa.Value) Verdict {
+			pre := e.Slice(a[0], SliceOpts{MaxDepth: 8, ThroughCalls: true, ThroughBinOps: true, ConstLeafOK: true}, func(x ssa.Value) Verdict {
 				if p, ok := x.(*ssa.Parameter); ok && (p == is.Params[0] || p == is.Params[1]) {
 					return Accept
 				}
